@@ -386,7 +386,7 @@ def run(rep: Report, prog: Program, tier: str) -> None:
                 info = emit_info(e)
                 if info["event_name"] in (None, "RETRY", "ABORTED", "SUCCESS"):
                     continue
-                key = (e.node.lineno,)
+                key = (e.node.lineno, info["event_name"])  # one emit in a shared helper counts once per event it is asked to emit
                 if key in seen7:
                     continue
                 seen7.add(key)
@@ -462,9 +462,10 @@ def run(rep: Report, prog: Program, tier: str) -> None:
                     rep.fail("R14.6", f"{fn.qual}|{problem[:50]}", f"{fn.qual}: {problem}", where=fn.where(e.node.ast), function=fn.qual, path=p.describe())
                 else:
                     rep.ok("R14.6")
-    if n_sites < 4:
-        raise AnalysisError(f"R14.6: only {n_sites} emit_breaker_event sites found (5 confirmed by hand)")
-    rep.floor("R14.6", 4)
+    if n_sites < 3:
+        # rejection, the success side and the failure side each report somewhere (helpers may share a site)
+        raise AnalysisError(f"R14.6: only {n_sites} emit_breaker_event sites found (at least 3 expected: rejected / after success / after failure)")
+    rep.floor("R14.6", 3)
 
 
 def present_attr(lits: dict, name: str) -> bool | None:
